@@ -1,28 +1,179 @@
-import Juniper.Model.Deque
+import Juniper.Proofs.DequeWF
 /-!
 # C04 — deque.Deque equals an ideal double-ended sequence (property theorems)
 
 Only property theorems and their non-vacuity examples live here; helper lemmas are in
 `Juniper/Proofs/Deque*.lean`.
+
+* spec: `Juniper.Spec.Deque` — a `List α`, `step` (one call), `panics` (the documented guards), `run`;
+* model: `Juniper.Model.Deque` — the ring buffer of `deque.go`; all index arithmetic, guards and
+  `resize` arguments are the definitions regenerated from the Go source (`Juniper.Gen.Deque`);
+* `WF d` is the representation invariant, `contents d : List α` the abstraction function;
+* `applyOp d o` is one call of the exported API (`Op` lists the twelve operations; `Op.iterate`
+  stands for "make an iterator and drain it").
+
+The two pops are required to overwrite the slot they vacate; that the Go source still contains those
+statements is the regenerated fact `ClearFacts`, discharged by `decide` inside the proofs — deleting
+a clearing statement in `deque.go` makes the theorems below fail to compile.
 -/
 namespace Juniper.Props.C04
-open Juniper.Gen.Deque Juniper.Model.Deque
+open Juniper.Gen.Deque Juniper.Model.Deque Juniper.Proofs.Deque
+open Juniper.Spec.Deque (Op Out)
+
+variable {α : Type}
 
 /-- The generated `positiveMod` is the mathematical residue for a positive modulus
 (ring index arithmetic of `PushFront`/`PopBack`). -/
 theorem positiveMod_spec (l d : Int) (hd : 0 < d) :
-    0 ≤ positiveMod l d ∧ positiveMod l d < d ∧ positiveMod l d = l % d := by
-  unfold positiveMod
-  simp only [Int.tmod_eq_emod]
-  have h0 := Int.emod_nonneg l (Int.ne_of_gt hd)
-  have h1 := Int.emod_lt_of_pos l hd
-  have hab : d.natAbs = d := by omega
-  by_cases hdv : d ∣ l
-  · have : l % d = 0 := Int.emod_eq_zero_of_dvd hdv
-    simp [hdv, this, hd]
-  · have : l % d ≠ 0 := fun h => hdv (Int.dvd_of_emod_eq_zero h)
-    by_cases hl : 0 ≤ l
-    · simp [hl]; omega
-    · simp [hl, hdv]; rw [hab]; omega
+    0 ≤ positiveMod l d ∧ positiveMod l d < d ∧ positiveMod l d = l % d :=
+  positiveMod_emod l d hd
+
+example : positiveMod (-1) 16 = 15 ∧ positiveMod 17 16 = 1 := by decide
+
+/-- The zero value of `Deque` is well formed and empty. -/
+theorem wf_init : WF (zero : Deque α) ∧ contents (zero : Deque α) = [] :=
+  ⟨rep_zero.wf, rep_zero.contents_eq⟩
+
+/-- What `WF` says about the fields: an unallocated deque has zero fields; an allocated one has
+`0 ≤ front < cap` (or `cap = 0`), `-1 ≤ back < cap`, `back = -1 ⇒ front = 0`; and `Len` is between
+`0` and the capacity and equals the length of the abstract contents. -/
+theorem wf_fields {d : Deque α} (h : WF d) :
+    (d.isNil = true → d.a = [] ∧ d.front = 0 ∧ d.back = 0) ∧
+    (d.isNil = false →
+      0 ≤ d.front ∧ (d.front < cap d ∨ (cap d = 0 ∧ d.front = 0)) ∧
+      -1 ≤ d.back ∧ (d.back < cap d ∨ (cap d = 0 ∧ d.back = -1)) ∧ (d.back = -1 → d.front = 0)) ∧
+    0 ≤ len d ∧ len d ≤ cap d ∧ len d = (contents d).length :=
+  ⟨h.bounds.1, h.bounds.2.1, h.bounds.2.2.1, h.bounds.2.2.2, h.len_eq⟩
+
+/-- Every call of the API preserves the representation invariant (panicking calls included). -/
+theorem wf_step {d : Deque α} (h : WF d) (o : Op α) : WF (applyOp d o).1 :=
+  (Rep.applyOp h o (by decide)).1.wf
+
+/-- **Refinement, one call.** For each of the twelve operations, in every well-formed state and
+for every argument: the call returns exactly what the ideal sequence returns (a panic included)
+and the new contents are the ideal sequence's new contents. -/
+theorem step_refines {d : Deque α} (h : WF d) (o : Op α) :
+    (applyOp d o).2 = (Spec.Deque.step (contents d) o).2 ∧
+    contents (applyOp d o).1 = (Spec.Deque.step (contents d) o).1 := by
+  obtain ⟨hr, ho, _, _⟩ := Rep.applyOp h o (by decide)
+  exact ⟨ho, hr.contents_eq⟩
+
+/-- `Grow` and `Shrink` never change the contents, whatever their argument, and afterwards the
+spare capacity is what was asked for (`≥ n` after `Grow(n)`, `≤ n` after `Shrink(n)`, `n ≥ 0`). -/
+theorem grow_shrink_preserve_contents {d : Deque α} (h : WF d) (n : Int) :
+    contents (applyOp d (.grow n)).1 = contents d ∧
+    contents (applyOp d (.shrink n)).1 = contents d ∧
+    (applyOp d (.grow n)).2 = .unit ∧ n ≤ cap (applyOp d (.grow n)).1 - len (applyOp d (.grow n)).1 ∧
+    (0 ≤ n → (applyOp d (.shrink n)).2 = .unit ∧
+      cap (applyOp d (.shrink n)).1 - len (applyOp d (.shrink n)).1 ≤ n) := by
+  have hg := (step_refines h (.grow n)).2
+  have hs := (step_refines h (.shrink n)).2
+  obtain ⟨d1, he1, hr1, hroom, _⟩ := Rep.grow h n
+  have e1 : applyOp d (.grow n) = (d1, .unit) := by simp only [applyOp, he1, outUnit]
+  refine ⟨by rw [hg]; simp [Spec.Deque.step, Spec.Deque.panics], ?_, by rw [e1], ?_, ?_⟩
+  · rw [hs]; unfold Spec.Deque.step; split <;> rfl
+  · rw [e1, hr1.len_eq]; exact hroom
+  · intro hn
+    obtain ⟨d2, he2, hr2, hfit, _⟩ := Rep.shrink h hn
+    have e2 : applyOp d (.shrink n) = (d2, .unit) := by simp only [applyOp, he2, outUnit]
+    rw [e2, hr2.len_eq]; exact ⟨rfl, hfit⟩
+
+/-- **Panics are exact.** A call panics iff the ideal sequence's guard fails — `PopFront`,
+`PopBack`, `Front`, `Back` on an empty deque, `Item`/`Set` outside `[0, Len)`, `Shrink` with a
+negative argument, and nothing else — and a panicking call leaves the whole state (not only the
+contents) untouched. -/
+theorem panics_exact {d : Deque α} (h : WF d) (o : Op α) :
+    ((applyOp d o).2 = .panic ↔ Spec.Deque.panics (contents d) o = true) ∧
+    ((applyOp d o).2 = .panic → (applyOp d o).1 = d) := by
+  obtain ⟨_, ho, _, hp⟩ := Rep.applyOp h o (by decide)
+  rw [ho, spec_step_panic_iff]
+  exact ⟨Iff.rfl, hp⟩
+
+/-- The guards of `panics_exact`, spelled out. -/
+theorem panic_guards (l : List α) (o : Op α) :
+    Spec.Deque.panics l o = true ↔
+      ((o = .popFront ∨ o = .popBack ∨ o = .front ∨ o = .back) ∧ l = []) ∨
+      (∃ i, o = .item i ∧ (i < 0 ∨ (l.length : Int) ≤ i)) ∨
+      (∃ i x, o = .set i x ∧ (i < 0 ∨ (l.length : Int) ≤ i)) ∨
+      (∃ n, o = .shrink n ∧ n < 0) := by
+  cases o <;> simp [Spec.Deque.panics]
+
+/-- The slot vacated by a pop is overwritten with the zero value. -/
+theorem popped_slot_cleared {d : Deque α} (h : WF d) (hne : contents d ≠ []) :
+    slot (applyOp d .popFront).1.a d.front = some none ∧
+    slot (applyOp d .popBack).1.a d.back = some none := by
+  obtain ⟨d1, he1, _, hc1, _⟩ := Rep.popFront h hne (by decide) (by decide)
+  obtain ⟨d2, he2, _, hc2, _⟩ := Rep.popBack h hne (by decide) (by decide)
+  simp only [applyOp, he1, he2, outVal]
+  exact ⟨hc1, hc2⟩
+
+/-- **Nothing popped is retained.** In every well-formed state every raw slot outside the live
+window `[front .. back]` (around the ring; all slots when the deque is empty) holds the zero value. -/
+theorem dead_slots_none {d : Deque α} (h : WF d) (j : Nat) (hj : j < d.a.length)
+    (hdead : len d = 0 ∨ (d.front ≤ d.back ∧ ((j : Int) < d.front ∨ d.back < j)) ∨
+      (d.back < d.front ∧ d.back < j ∧ (j : Int) < d.front)) :
+    d.a[j]? = some none :=
+  h.dead_slots_none j hj hdead
+
+/-- … and the live window holds exactly the contents, in order, starting at `front` and wrapping
+at the end of the buffer. -/
+theorem live_slots_hold_contents {d : Deque α} (h : WF d) (k : Nat) (hk : k < (contents d).length) :
+    slot d.a (if d.front + k < cap d then d.front + k else d.front + k - cap d)
+      = some (some (contents d)[k]) :=
+  h.live_slots k hk
+
+/-- **Refinement, every history.** From the zero value, every sequence of calls returns exactly what
+the ideal sequence returns, ends in a well-formed state, and that state holds the ideal contents. -/
+theorem history_refines (ops : List (Op α)) :
+    (run (zero : Deque α) ops).2 = (Spec.Deque.run [] ops).2 ∧
+    WF (run (zero : Deque α) ops).1 ∧
+    contents (run (zero : Deque α) ops).1 = (Spec.Deque.run [] ops).1 := by
+  obtain ⟨hr, ho⟩ := Rep.run (by decide) ops (zero : Deque α) [] rep_zero
+  exact ⟨ho, hr.wf, hr.contents_eq⟩
+
+/-- The same from any well-formed state (every reachable combination of capacity, front offset
+and length). -/
+theorem history_refines_from {d : Deque α} (h : WF d) (ops : List (Op α)) :
+    (run d ops).2 = (Spec.Deque.run (contents d) ops).2 ∧ WF (run d ops).1 ∧
+    contents (run d ops).1 = (Spec.Deque.run (contents d) ops).1 := by
+  obtain ⟨hr, ho⟩ := Rep.run (by decide) ops d _ h
+  exact ⟨ho, hr.wf, hr.contents_eq⟩
+
+/-! ## Non-vacuity: the states the property text singles out are reachable and well formed -/
+
+/-- 16 pushes fill the first buffer; three pops and three pushes wrap it. -/
+def wrappedFullOps : List (Op Int) :=
+  (List.range 16).map (fun i => Op.pushBack (Int.ofNat i)) ++
+    [.popFront, .popFront, .popFront, .pushBack 16, .pushBack 17, .pushBack 18]
+
+/-- A full, wrapped ring (`cap = 16`, `front = 3`, `back = 2`) is well formed; the next push to the
+front reallocates and unwraps it, the contents are what the ideal sequence holds. -/
+example :
+    let d := (run zero wrappedFullOps).1
+    WF d ∧ d.back < d.front ∧ len d = cap d ∧ cap d = 16 ∧
+      contents (applyOp d (.pushFront 99)).1 = 99 :: (List.range 16).map (fun i => Int.ofNat i + 3) ∧
+      cap (applyOp d (.pushFront 99)).1 = 32 := by
+  refine ⟨(history_refines wrappedFullOps).2.1, by decide +kernel, by decide +kernel,
+    by decide +kernel, by decide +kernel, by decide +kernel⟩
+
+/-- Exact fit after `Shrink(0)` (`cap = len = 3`), then `Shrink` to zero capacity of the emptied
+deque, then a push to the front: all well formed, contents as expected. -/
+example :
+    let ops : List (Op Int) := [.pushBack 1, .pushBack 2, .pushFront 0, .shrink 0]
+    let d := (run zero ops).1
+    WF d ∧ cap d = 3 ∧ len d = 3 ∧ contents d = [0, 1, 2] ∧
+      (run d [.popFront, .popFront, .popFront, .shrink 0]).2 = [.val (some 0), .val (some 1), .val (some 2), .unit] ∧
+      cap (run d [.popFront, .popFront, .popFront, .shrink 0]).1 = 0 ∧
+      (run d [.popFront, .popFront, .popFront, .shrink 0]).1.isNil = false ∧
+      contents (run d [.popFront, .popFront, .popFront, .shrink 0, .pushFront 7]).1 = [7] := by
+  refine ⟨(history_refines _).2.1, by decide +kernel, by decide +kernel, by decide +kernel,
+    by decide +kernel, by decide +kernel, by decide +kernel, by decide +kernel⟩
+
+/-- The documented panics happen and leave the state alone; the malformed calls are not vacuous. -/
+example :
+    (applyOp (zero : Deque Int) .popFront) = (zero, .panic) ∧
+    (applyOp (zero : Deque Int) (.shrink (-1))) = (zero, .panic) ∧
+    (applyOp (run (zero : Deque Int) [.pushBack 5]).1 (.item 1)).2 = .panic ∧
+    (applyOp (run (zero : Deque Int) [.pushBack 5]).1 (.set (-1) 3)).2 = .panic := by decide
 
 end Juniper.Props.C04
